@@ -300,6 +300,17 @@ def zipExtract (inflate : Bytes → Nat → Option Bytes) (junk : Bytes) (st : Z
         if out.length != st.uncompSize then none
         else if (crc32A out 0).toNat != st.crc32 then none else some out
 
+/-- the part of `mz_zip_reader_init`'s central-directory sanity test that closes the
+    `compSize = 0` bypass: `decomp_size && !comp_size` is refused (unless a size is 0xFFFFFFFF,
+    the zip64 escape) -/
+def zipCdirOk (st : ZipStat) : Bool :=
+  !(st.compSize != 0xFFFFFFFF && st.uncompSize != 0xFFFFFFFF && st.uncompSize != 0 && st.compSize == 0)
+
+/-- reader initialisation test, then extraction of the member -/
+def zipMember (inflate : Bytes → Nat → Option Bytes) (junk : Bytes) (st : ZipStat) (tail : Option Bytes) :
+    Option Bytes :=
+  if zipCdirOk st then zipExtract inflate junk st tail else none
+
 /-! ## bzip2 (bunzip2.c) -/
 
 /-- `write_bunzip_data(bd, bw, out, 0, 0)` over the decoded blocks `(headerCRC, bytes)` followed
